@@ -562,7 +562,12 @@ def slice_cases(I, st, n, s):
         if not (is_z3(v) and z3.is_int(v)):
             raise Unsupported("slice bound %r" % (v,))
         out = []
-        conds = [(v <= -n, -n)] + [(v == k, k) for k in range(-n + 1, n)] + [(v >= n, n)]
+        if s.step is not None and s.step < 0:
+            # with a negative step a bound below -n means "before the first element" (it clamps to -1, not to 0):
+            # l[-n::-1] == [l[0]] but l[-n-1::-1] == [], l[:-n:-1] stops before l[0] but l[:-n-1:-1] includes it
+            conds = [(v <= -n - 1, -n - 1)] + [(v == k, k) for k in range(-n, n)] + [(v >= n, n)]
+        else:
+            conds = [(v <= -n, -n)] + [(v == k, k) for k in range(-n + 1, n)] + [(v >= n, n)]
         for c, val in conds:
             if I.feasible(st, c):
                 s2 = st.fork()
@@ -900,7 +905,12 @@ def setitem(I, st, obj, idx, v):
         if e.kind in ("list", "deque"):
             if isinstance(idx, SliceVal):
                 sl = slice_concrete(I, len(e.items), idx)
-                e.items[sl] = I.iterate(v, st)
+                new_items = I.iterate(v, st)
+                try:
+                    e.items[sl] = new_items  # python's own list slice assignment (any step, any length)
+                except ValueError as err:  # extended slice of another size / step 0
+                    yield st, exc("ValueError", str(err))
+                    return
                 yield st, None
                 return
             idx = as_arith(idx)
@@ -1014,7 +1024,11 @@ def delitem(I, st, obj, idx):
             return
         if e.kind in ("list", "deque"):
             if isinstance(idx, SliceVal):
-                del e.items[slice_concrete(I, len(e.items), idx)]
+                try:
+                    del e.items[slice_concrete(I, len(e.items), idx)]
+                except ValueError as err:  # step 0
+                    yield st, exc("ValueError", str(err))
+                    return
                 yield st, None
                 return
             if isinstance(idx, int):
